@@ -9,6 +9,7 @@ next-out, resend watermark symbolic, under the representation invariant) with an
 inbound message (kind, MsgSeqNum, PossDupFlag, NewSeqNo, BeginSeqNo symbolic), plus 2-step
 unrollings for 'no second ResendRequest until the gap is closed'.
 """
+from asyncfix.errors import DuplicateSeqNoError
 from asyncfix.connection import ConnectionRole, ConnectionState
 
 from checks.sessmod import CS, KINDS, ROLES, build_inbound, check_frames_wellformed, wire_summary
@@ -44,7 +45,15 @@ def step(I, c, kind, k, digits):
     n_app = len(c.app)
     w = c._socket_writer
     n_frames = len(w.frames)
-    run(c._process_message(msg, raw))
+    try:
+        run(c._process_message(msg, raw))
+    except DuplicateSeqNoError:
+        # _finalize_message runs in _process_message's `finally`, so the journal's duplicate error
+        # escapes to the reader task, which logs it and reads on (socket_read_task: except Exception).
+        # It happens for the message that follows a SequenceReset whose own MsgSeqNum equals its
+        # NewSeqNo: the reset's journal row occupies that number (known finding
+        # c09.seqreset_stored_counter_lags, same root).  Delivery and the counter are judged as usual.
+        I.note("DuplicateSeqNoError escaped _process_message (logged by the reader task)")
     frames = w.frames[n_frames:]
     delivered = c.app[n_app:]
     return dict(kind=kind, seq=seq, par=par, pre_in=pre_in, pre_out=pre_out, pre_state=pre_state,
@@ -161,7 +170,7 @@ def cells(tier):
         pairs += [("app", "gapfill"), ("reset", "app"), ("testrequest", "app"), ("resendrequest", "app"), ("app", "resendrequest")]
     for a, bb in pairs:
         for sname, st in STATES.items():
-            d2 = 1 if quick else 2
+            d2 = 1 if (quick or "resendrequest" in (a, bb)) else 2  # (2-digit counters with a ResendRequest step did not exhaust in 40 min)
             out.append(Cell(f"two/{sname}/{a}+{bb}", (lambda I, st=st, a=a, bb=bb, d2=d2: h_two(I, st, [a], [bb], d2)),
                             dict(b, state=sname, kinds=[a, bb], counters=f"symbolic in [1,10^{d2}-1]", msg_seq_num=f"symbolic in [1,10^{d2}+5]"),
                             goals=["step"], regions=reg, budget_s=2400))
